@@ -24,8 +24,11 @@ def main():
     ap.add_argument('-v', action='store_true')
     ap.add_argument('--seeds', action='store_true', help='also apply every /verif/seeded/*/patch.diff and expect its property to fire')
     ap.add_argument('--only-seeds', action='store_true')
+    ap.add_argument('--shard', default='', help='i/n: take every n-th mutant and seed, starting at i (parallel runs)')
     a = ap.parse_args()
     muts = [m for m in load_mutants() if a.k in m['id'] and (not a.prop or a.prop in m['props'])]
+    si, sn = (int(x) for x in a.shard.split('/')) if a.shard else (0, 1)
+    muts = muts[si::sn]
     if a.only_seeds:
         muts = []; a.seeds = True
     scratch = tempfile.mkdtemp(prefix='tfmut_')
@@ -77,7 +80,7 @@ def main():
                 open(fp, 'w').write(src)
         if a.seeds:
             import glob
-            for mj in sorted(glob.glob(os.path.join(VERIF, 'seeded', '*', 'meta.json'))):
+            for mj in sorted(glob.glob(os.path.join(VERIF, 'seeded', '*', 'meta.json')))[si::sn]:
                 meta = json.load(open(mj))
                 if a.k and a.k not in meta['id']:
                     continue
